@@ -86,6 +86,7 @@ type runner interface {
 	id() string
 	runAll(t *testing.T)
 	replay(raw []byte) error
+	fuzz(f *testing.F)
 }
 
 var registry = map[string]runner{}
@@ -468,4 +469,40 @@ func (r *defRunner[C]) replay(raw []byte) error {
 	}
 	_, err := safeRun(r.d.Run, c)
 	return err
+}
+
+// fuzz drives the same generators and the same oracle from a coverage-guided
+// byte string (rapid.MakeFuzz is the data-provider layer: bytes -> rapid bit
+// stream -> structured case). Known findings are excluded inside the target so
+// that a campaign does not end on a listed defect.
+func (r *defRunner[C]) fuzz(f *testing.F) {
+	tier := Tier{Name: "thorough", Thorough: true}
+	known := loadKnown(r.d.ID)
+	f.Add([]byte{})
+	f.Add([]byte{0, 0, 0, 0, 0, 0, 0, 0, 0, 0, 0, 0, 0, 0, 0, 0})
+	f.Add([]byte("\xff\xff\xff\xff\xff\xff\xff\xff\xff\xff\xff\xff\xff\xff\xff\xff\xff\xff\xff\xff\xff\xff\xff\xff"))
+	seed := uint64(88172645463325252)
+	for i := 0; i < 12; i++ {
+		b := make([]byte, 64+i*32)
+		for j := range b {
+			seed ^= seed << 13
+			seed ^= seed >> 7
+			seed ^= seed << 17
+			b[j] = byte(seed)
+		}
+		f.Add(b)
+	}
+	f.Fuzz(rapid.MakeFuzz(func(rt *rapid.T) {
+		c := r.d.Gen(rt, tier)
+		_, err := safeRun(r.d.Run, c)
+		if err != nil {
+			if v, ok := err.(*Violation); ok {
+				if _, isKnown := known[v.Key]; isKnown {
+					return
+				}
+			}
+			raw, _ := json.Marshal(c)
+			rt.Fatalf("%s violated: %v\ncase: %s", r.d.ID, err, raw)
+		}
+	}))
 }
